@@ -194,6 +194,8 @@ def physics_run(scn, checkers, nontrivial, sig, extra=None, post=None, **kw):
             s0.pop(key, None)
         s0["faults"] = []
         s0["observer"] = {"output": None}
+        for field, alt in prior.get("changed", {}).items():
+            s0["options"][field] = alt
         s0["options"]["solve_time"] = s0["options"]["dt_init"] * prior["steps"]
         s0["options"]["skip_time"] = 0.0
         if prior["variant"] == "no-terminals":
@@ -201,13 +203,19 @@ def physics_run(scn, checkers, nontrivial, sig, extra=None, post=None, **kw):
             s0["drive"]["currents"] = None
         elif prior["variant"] == "no-holes":
             s0["device"]["holes"] = []
-        sim0, h0 = _run(s0)
-        if h0.outcome.startswith("rejected") or getattr(sim0, "options", None) is None:
-            sim0.cleanup()
-            raise Discard(f"prior use of the options did not run: {h0.outcome}")
-        opts = sim0.options
-        opts.solve_time = scn["options"]["solve_time"]
-        opts.skip_time = scn["options"].get("skip_time", 0.0)
+        from .. import build as _B
+
+        if prior.get("run", True):
+            sim0, h0 = _run(s0)
+            if h0.outcome.startswith("rejected") or getattr(sim0, "options", None) is None:
+                sim0.cleanup()
+                raise Discard(f"prior use of the options did not run: {h0.outcome}")
+            opts = sim0.options
+        else:
+            opts = _B.build_options(s0["options"], None)  # constructed with the other values, never used
+        declared = _B.build_options(scn["options"], None)
+        for field in ["solve_time", "skip_time"] + list(prior.get("changed", {})):
+            setattr(opts, field, getattr(declared, field))
         kw["options_as_is"] = opts
     sim, h = _run(scn, checkers=checkers, **kw)
     try:
